@@ -2,6 +2,7 @@ import QRV.Model.QR
 import QRV.Model.Micro
 import QRV.Model.RMQR
 import QRV.Lemmas.BCHFinite
+import QRV.Lemmas.BCHScan
 /-
 C11 — format/version information is the standard BCH code and is read robustly.
 
@@ -11,25 +12,26 @@ Readers: `Model.QR.decodeFormat0`, `Model.Micro.decodeFormat`, `Model.RMQR.decod
 `Model.QR.decodeFormat` / `Model.RMQR.decodeFormat`.
 -/
 namespace QRV.Props.C11
-open QRV QRV.Model QRV.Spec.BCH
+open QRV QRV.Model QRV.Model.Bitmap QRV.Spec.BCH QRV.Lemmas.BCH
 
 /-! ### the written words are the standard's BCH codewords -/
 
 theorem qr_format_is_bch (i : Nat) (h : i < 32) :
     Gen.QR.encodedFormat[i]? = some (bch15 i ^^^ 0x5412) := by
-  sorry
+  rw [qr_format_table, List.getElem?_map, List.getElem?_range h]; rfl
 
 theorem qr_version_is_bch (v : Nat) (h7 : 7 ≤ v) (h40 : v ≤ 40) :
     Gen.QR.encodedVersion[v]? = some (bch18 v) := by
-  sorry
+  rw [qr_version_table, List.getElem?_map, List.getElem?_range (by omega), Option.map_some,
+    if_neg (by omega)]
 
 theorem micro_format_is_bch (i : Nat) (h : i < 32) :
     Gen.Micro.encodedFormat[i]? = some (bch15 i ^^^ 0x4445) := by
-  sorry
+  rw [micro_format_table, List.getElem?_map, List.getElem?_range h]; rfl
 
 theorem rmqr_version_is_bch (i : Nat) (h : i < 64) :
     Gen.RMQR.encodedVersion[i]? = some (bch18 i) := by
-  sorry
+  rw [rmqr_version_table, List.getElem?_map, List.getElem?_range h]; rfl
 
 /-! ### nearest-codeword reading: accept within distance 2, reject at distance ≥ 3 -/
 
@@ -37,38 +39,111 @@ theorem rmqr_version_is_bch (i : Nat) (h : i < 64) :
 theorem qr_nearest (raw idx c : Nat) (hi : idx < 32) (hc : Gen.QR.encodedFormat[idx]? = some c)
     (hd : hamming raw c ≤ 2) :
     QR.decodeFormat0 raw = some (((idx >>> 3 : Nat) : Int), ((idx &&& 7 : Nat) : Int)) := by
-  sorry
+  have _ := hi
+  have ⟨h1, h2⟩ := scan_nearest qr_format_distance raw idx c hc hd
+  rw [qr_decodeFormat0_eq, if_neg (by omega), h1]
 
 /-- QR: a raw word three or more modules from every codeword is rejected, not guessed -/
 theorem qr_reject (raw : Nat) (hd : ∀ c ∈ Gen.QR.encodedFormat, hamming raw c ≥ 3) :
     QR.decodeFormat0 raw = none := by
-  sorry
+  rw [qr_decodeFormat0_eq, if_pos (scan_reject (by rw [qr_format_length]; omega) raw hd)]
 
 theorem micro_nearest (raw idx c : Nat) (hi : idx < 32) (hc : Gen.Micro.encodedFormat[idx]? = some c)
     (hd : hamming raw c ≤ 2) :
     ∃ v l, Gen.Micro.rawFormatTable[idx >>> 2]? = some (v, l) ∧
       Micro.decodeFormat raw = .ok (some (v, l, ((idx &&& 3 : Nat) : Int))) := by
-  sorry
+  have ⟨h1, h2⟩ := scan_nearest micro_format_distance raw idx c hc hd
+  rw [micro_decodeFormat_eq, if_neg (by omega), h1]
+  exact micro_symbol_lookup idx hi _
 
 theorem micro_reject (raw : Nat) (hd : ∀ c ∈ Gen.Micro.encodedFormat, hamming raw c ≥ 3) :
     Micro.decodeFormat raw = .ok none := by
-  sorry
+  rw [micro_decodeFormat_eq, if_pos (scan_reject (by rw [micro_format_length]; omega) raw hd)]
 
 theorem rmqr_nearest (raw idx c : Nat) (hi : idx < 64) (hc : Gen.RMQR.encodedVersion[idx]? = some c)
     (hd : hamming raw c ≤ 2) :
     RMQR.decodeFormat0 raw = some (((idx &&& 0x1f : Nat) : Int), (((idx >>> 5) &&& 1 : Nat) : Int)) := by
-  sorry
+  have _ := hi
+  have ⟨h1, h2⟩ := scan_nearest rmqr_version_distance raw idx c hc hd
+  rw [rmqr_decodeFormat0_eq, if_neg (by omega), h1]
 
 theorem rmqr_reject (raw : Nat) (hd : ∀ c ∈ Gen.RMQR.encodedVersion, hamming raw c ≥ 3) :
     RMQR.decodeFormat0 raw = none := by
-  sorry
+  rw [rmqr_decodeFormat0_eq, if_pos (scan_reject (by rw [rmqr_version_length]; omega) raw hd)]
 
 /-- the accept/reject boundary is a dichotomy for every raw word: either some codeword is within 2
 (and it is unique), or all are at distance ≥ 3 -/
 theorem qr_dichotomy (raw : Nat) :
     (∃ idx c, idx < 32 ∧ Gen.QR.encodedFormat[idx]? = some c ∧ hamming raw c ≤ 2) ∨
     (∀ c ∈ Gen.QR.encodedFormat, hamming raw c ≥ 3) := by
-  sorry
+  have := scan_dichotomy (tbl := Gen.QR.encodedFormat) (by rw [qr_format_length]; omega) raw
+  rwa [qr_format_length] at this
+
+/-! ### the two-copy logic of `QR.decodeFormat` and `RMQR.decodeFormat`
+
+`Lemmas.BCH.twoCopy dec msg raw1 read2`: decode the first copy with the single-copy reader `dec`;
+only if that is rejected, read (`read2 : Out Nat`) and decode the second; error when both are
+rejected.  The two model functions are exactly "read the raw word(s) from the image, then
+`twoCopy`" (`qrReadRaws`, `rmqrRead1`, `rmqrRead2` are the models' own reading loops). -/
+
+theorem qr_decodeFormat_is_twoCopy (img : Image) :
+    QR.decodeFormat img =
+      qrReadRaws img >>= fun p => twoCopy QR.decodeFormat0 "qrcode: QRCode not found" p.1 (pure p.2) :=
+  qr_decodeFormat_factor img
+
+theorem rmqr_decodeFormat_is_twoCopy (img : Image) :
+    RMQR.decodeFormat img =
+      rmqrRead1 img >>= fun raw =>
+        twoCopy RMQR.decodeFormat0 "rmqr: rMRQ not found" (raw ^^^ RMQR.fmtMask1)
+          (rmqrRead2 img >>= fun raw2 => pure (raw2 ^^^ RMQR.fmtMask2)) :=
+  rmqr_decodeFormat_factor img
+
+/-- QR: a first copy within 2 of a codeword wins, whatever the second copy holds (or fails with) -/
+theorem qr_first_copy_wins (msg : String) (raw1 : Nat) (read2 : Out Nat) (idx c : Nat) (hi : idx < 32)
+    (hc : Gen.QR.encodedFormat[idx]? = some c) (hd : hamming raw1 c ≤ 2) :
+    twoCopy QR.decodeFormat0 msg raw1 read2 =
+      .ok (((idx >>> 3 : Nat) : Int), ((idx &&& 7 : Nat) : Int)) :=
+  twoCopy_first read2 (qr_nearest raw1 idx c hi hc hd)
+
+/-- QR: a first copy ≥ 3 from every codeword falls back to the second copy -/
+theorem qr_second_copy_fallback (msg : String) (raw1 raw2 idx c : Nat) (hi : idx < 32)
+    (h1 : ∀ c ∈ Gen.QR.encodedFormat, hamming raw1 c ≥ 3)
+    (hc : Gen.QR.encodedFormat[idx]? = some c) (hd : hamming raw2 c ≤ 2) :
+    twoCopy QR.decodeFormat0 msg raw1 (.ok raw2) =
+      .ok (((idx >>> 3 : Nat) : Int), ((idx &&& 7 : Nat) : Int)) :=
+  twoCopy_second (qr_reject raw1 h1) (qr_nearest raw2 idx c hi hc hd)
+
+/-- QR: both copies ≥ 3 from every codeword: an error, not a guess -/
+theorem qr_both_far (msg : String) (raw1 raw2 : Nat)
+    (h1 : ∀ c ∈ Gen.QR.encodedFormat, hamming raw1 c ≥ 3)
+    (h2 : ∀ c ∈ Gen.QR.encodedFormat, hamming raw2 c ≥ 3) :
+    twoCopy QR.decodeFormat0 msg raw1 (.ok raw2) = .err msg :=
+  twoCopy_none (qr_reject raw1 h1) (qr_reject raw2 h2)
+
+theorem rmqr_first_copy_wins (msg : String) (raw1 : Nat) (read2 : Out Nat) (idx c : Nat) (hi : idx < 64)
+    (hc : Gen.RMQR.encodedVersion[idx]? = some c) (hd : hamming raw1 c ≤ 2) :
+    twoCopy RMQR.decodeFormat0 msg raw1 read2 =
+      .ok (((idx &&& 0x1f : Nat) : Int), (((idx >>> 5) &&& 1 : Nat) : Int)) :=
+  twoCopy_first read2 (rmqr_nearest raw1 idx c hi hc hd)
+
+theorem rmqr_second_copy_fallback (msg : String) (raw1 raw2 idx c : Nat) (hi : idx < 64)
+    (h1 : ∀ c ∈ Gen.RMQR.encodedVersion, hamming raw1 c ≥ 3)
+    (hc : Gen.RMQR.encodedVersion[idx]? = some c) (hd : hamming raw2 c ≤ 2) :
+    twoCopy RMQR.decodeFormat0 msg raw1 (.ok raw2) =
+      .ok (((idx &&& 0x1f : Nat) : Int), (((idx >>> 5) &&& 1 : Nat) : Int)) :=
+  twoCopy_second (rmqr_reject raw1 h1) (rmqr_nearest raw2 idx c hi hc hd)
+
+theorem rmqr_both_far (msg : String) (raw1 raw2 : Nat)
+    (h1 : ∀ c ∈ Gen.RMQR.encodedVersion, hamming raw1 c ≥ 3)
+    (h2 : ∀ c ∈ Gen.RMQR.encodedVersion, hamming raw2 c ≥ 3) :
+    twoCopy RMQR.decodeFormat0 msg raw1 (.ok raw2) = .err msg :=
+  twoCopy_none (rmqr_reject raw1 h1) (rmqr_reject raw2 h2)
+
+/-- the second copy is read only when the first is rejected; a failure of that read then propagates -/
+theorem second_read_failure (dec : Nat → Option (Int × Int)) (msg m : String) (raw1 : Nat)
+    (h1 : dec raw1 = none) :
+    twoCopy dec msg raw1 (.err m) = .err m ∧ twoCopy dec msg raw1 (.panic m) = .panic m :=
+  twoCopy_read_fails h1 m
 
 /-! non-vacuity: the all-zero data word of each code -/
 example : bch15 0 ^^^ 0x5412 = 0x5412 ∧ bch15 1 = 0x0537 ∧ bch18 7 = 0x07C94 := by decide +kernel
